@@ -19,10 +19,11 @@
 (***************************************************************************)
 EXTENDS Merge, TLC, Json
 
-CONSTANTS KPoss, ColOps, States1, States2, States3
+CONSTANTS KPoss, ColOps, States1, States2, States3,
+          ThirdOps    \* {}: pairs of branches; otherwise the column ops of a THIRD branch (N = 3)
 
-VARIABLES kpos, x, y, phase
-vars == <<kpos, x, y, phase>>
+VARIABLES kpos, x, y, z, phase
+vars == <<kpos, x, y, z, phase>>
 
 InsertAt(s, i, e) == SubSeq(s, 1, i - 1) \o <<e>> \o SubSeq(s, i, Len(s))
 
@@ -64,20 +65,39 @@ ExportV(v) == [cols |-> v.cols,
 ExportR(r) == [cols |-> r.cols,
                rows |-> {<<k, {<<c, r.rows[k][c]>> : c \in r.cols}>> : k \in DOMAIN r.rows}]
 
+Thirds(kp) == {Branch(kp, op, s1, s2, s3) : op \in ThirdOps, s1 \in States1, s2 \in States2, s3 \in States3}
+
+Scn(b, bs) ==
+  PrintT(<<"SCN", ToJson([base |-> ExportV(b), branches |-> [i \in 1..Len(bs) |-> ExportV(bs[i])],
+                          result |-> ExportR(Result(b, bs)),
+                          conflicts |-> {<<k, ConflictCols(b, bs, k)>> : k \in ConflictKeys(b, bs)},
+                          ambiguous |-> AmbiguousKeys(b, bs)])>>)
+
 Init == /\ kpos \in KPoss
         /\ x \in Versions(kpos)
-        /\ y = x
+        /\ y = x /\ z = x
         /\ phase = "pick"
-Next == /\ phase = "pick" /\ phase' = "done"
-        /\ y' \in Versions(kpos)
-        /\ UNCHANGED <<kpos, x>>
-        /\ LET b == Base(kpos) bs == <<x, y'>> IN
-             PrintT(<<"SCN", ToJson([base |-> ExportV(b), branches |-> <<ExportV(x), ExportV(y')>>,
-                                     result |-> ExportR(Result(b, bs)),
-                                     conflicts |-> {<<k, ConflictCols(b, bs, k)>> : k \in ConflictKeys(b, bs)},
-                                     ambiguous |-> AmbiguousKeys(b, bs)])>>)
+Next == \/ /\ phase = "pick" /\ phase' = (IF ThirdOps = {} THEN "done" ELSE "pick3")
+           /\ y' \in Versions(kpos)
+           /\ UNCHANGED <<kpos, x, z>>
+           /\ ThirdOps = {} => Scn(Base(kpos), <<x, y'>>)
+        \/ /\ phase = "pick3" /\ phase' = "done3"
+           /\ z' \in Thirds(kpos)
+           /\ UNCHANGED <<kpos, x, y>>
+           /\ Scn(Base(kpos), <<x, y, z'>>)
 Spec == Init /\ [][Next]_vars
 
+\* three branches: the outcome does not depend on the order in which they are listed either
+LawOrder3(base, a, b, c) ==
+  /\ ConflictKeys(base, <<a, b, c>>) = ConflictKeys(base, <<c, a, b>>)
+  /\ Result(base, <<a, b, c>>) = Result(base, <<b, c, a>>)
+  /\ Result(base, <<a, b, c>>) = Result(base, <<b, a, c>>)
+\* a third branch that is the base changes nothing: merge(base; X, Y, base) = merge(base; X, Y)
+LawNeutral3(base, a, b) ==
+  /\ ConflictKeys(base, <<a, b, base>>) = ConflictKeys(base, <<a, b>>)
+  /\ Result(base, <<a, b, base>>) = Result(base, <<a, b>>)
+
 Laws == /\ phase = "pick" => LawIdentity(Base(kpos), x) /\ LawIdempotent(Base(kpos), x)
-        /\ phase = "done" => LawOrder(Base(kpos), x, y)
+        /\ phase \in {"done", "pick3"} => LawOrder(Base(kpos), x, y) /\ LawNeutral3(Base(kpos), x, y)
+        /\ phase = "done3" => LawOrder3(Base(kpos), x, y, z)
 =============================================================================
